@@ -200,9 +200,23 @@ class ParFlow:
         return "\n".join(L) + "\n"
 
 
+CORNERS = [
+    # (kind, n, nil, index): empty and nil collections with an End hook, next to one task
+    ("slice", 0, False, True), ("slice", 0, True, False), ("map", 0, False, False), ("map", 0, True, False),
+    ("slice", 1, False, True), ("map", 1, False, False),
+]
+
+
 def gen_pars(seed, n):
     r = random.Random(seed * 104729 + 10)
-    return [ParFlow(i, r) for i in range(n)], r
+    pars = [ParFlow(i, r) for i in range(n)]
+    # the corner cases are not left to chance: the first programs are overwritten with them
+    for i, (kind, cn, nil, index) in enumerate(CORNERS[:max(0, min(len(CORNERS), n - 2))]):
+        p = pars[i]
+        p.coe, p.generic = False, False
+        p.items = [dict(kind="task", k=0, ctx=False, err=True, instr=False),
+                   dict(kind=kind, k=1, ctx=(i % 2 == 0), err=True, n=cn, nil=nil, end=True, endctx=(i % 2 == 1), enderr=True, index=index, named=False)]
+    return pars, r
 
 
 def render_files(pars, per=4):
